@@ -2485,13 +2485,14 @@ class BDD(dd._abc.BDD[_Ref]):
         umap = {1: 1}
             # the terminal node is not rebuilt,
             # roots may refer to it
-        for u in succ:
-            # already added ?
-            if u in umap:
-                continue
-            # add
-            self._load(
-                u, succ, umap, level_map)
+        with _NoReorderingRequests(self):
+            for u in succ:
+                # already added ?
+                if u in umap:
+                    continue
+                # add
+                self._load(
+                    u, succ, umap, level_map)
         return umap, d['roots']
 
     def _load(
@@ -2512,8 +2513,6 @@ class BDD(dd._abc.BDD[_Ref]):
         # memoized ?
         if u in umap:
             r = umap[abs(u)]
-            if r <= 0:
-                raise AssertionError(r)
             if u < 0:
                 r = -r
             return r
@@ -2523,9 +2522,10 @@ class BDD(dd._abc.BDD[_Ref]):
             v, succ, umap, level_map)
         q = self._load(
             w, succ, umap, level_map)
-        r = self.find_or_add(j, p, q)
-        if r <= 0:
-            raise AssertionError(r)
+        # `p`, `q` can be above level `j` when
+        # the variables are in another order here
+        g = self.find_or_add(j, -1, 1)
+        r = self.ite(g, q, p)
         umap[abs(u)] = r
         if u < 0:
             r = -r
